@@ -30,15 +30,41 @@ pub struct C10Case {
 
 pub const FAMILIES: &[(&str, u64)] = &[("tiny", 3), ("tiny-hints", 3), ("tiny-soft", 1), ("medium", 2), ("medium-hints", 2), ("conf", 2), ("conf-hints", 2), ("lazy-hints", 1), ("deep-hints", 1)];
 
-/// Duplicate provider calls in a log (within one solver).
+/// Duplicate provider calls in a log (within one solver): a call for something the provider has
+/// already answered, or for something that is still being asked (called, neither answered nor
+/// dropped). A call whose future was dropped unanswered may legitimately be issued again.
 pub fn duplicate_calls(log: &[Ev]) -> Vec<String> {
-    let mut cc: BTreeMap<String, u32> = BTreeMap::new();
+    let mut open: BTreeMap<String, ()> = BTreeMap::new();
+    let mut answered: BTreeMap<String, ()> = BTreeMap::new();
+    let mut dup: BTreeMap<String, u32> = BTreeMap::new();
     for e in log {
-        if let Ev::CandCall(_) | Ev::DepsCall(_) = e {
-            *cc.entry(format!("{:?}", e)).or_insert(0) += 1;
+        match e {
+            Ev::CandCall(_) | Ev::DepsCall(_) => {
+                let k = format!("{:?}", e);
+                if answered.contains_key(&k) || open.insert(k.clone(), ()).is_some() {
+                    *dup.entry(k).or_insert(1) += 1;
+                }
+            }
+            Ev::CandRet(n) => {
+                let k = format!("{:?}", Ev::CandCall(*n));
+                open.remove(&k);
+                answered.insert(k, ());
+            }
+            Ev::DepsRet(n) => {
+                let k = format!("{:?}", Ev::DepsCall(*n));
+                open.remove(&k);
+                answered.insert(k, ());
+            }
+            Ev::CandDropped(n) => {
+                open.remove(&format!("{:?}", Ev::CandCall(*n)));
+            }
+            Ev::DepsDropped(n) => {
+                open.remove(&format!("{:?}", Ev::DepsCall(*n)));
+            }
+            _ => {}
         }
     }
-    cc.into_iter().filter(|(_, c)| *c > 1).map(|(k, c)| format!("{k} x{c}")).collect()
+    dup.into_iter().map(|(k, c)| format!("{k} x{c}")).collect()
 }
 
 /// Judge one asynchronous run against the synchronous verdict.
@@ -210,12 +236,16 @@ impl Monitor for C10 {
             // providers do to break ties): its requests race with the encoder's own, every callback
             // suspends. Same oracle (in particular: nothing is asked twice).
             if h % 3 == 0 {
-                for pol in c.policies.iter().filter(|p| matches!(p, Policy::Random(_))).take(2) {
+                for (k, pol) in c.policies.iter().filter(|p| matches!(p, Policy::Random(_))).take(2).enumerate() {
                     ctx.rep.evaluations += 1;
                     let opts = SolveOpts { mode: Mode::Async(pol.clone()), pause_mask: PAUSE_ALL, activity: c.activity, ..SolveOpts::default() };
                     let mut sess = Session::new(u.clone(), &opts);
                     sess.prov().reentrant_sort.set(true);
+                    // the second of these runs uses an impatient provider that abandons re-entrant
+                    // dependency queries which are not ready at once (waiters have to start over)
+                    sess.prov().abandon.set(k == 1);
                     let out = sess.solve(&c.p);
+                    ctx.rep.add("re-entrant-queries-abandoned-by-the-provider", sess.prov().abandoned.get());
                     note_outcome(ctx.rep, &out);
                     ctx.rep.count("runs-with-re-entrant-cache-queries-from-sort_candidates");
                     ctx.rep.add("re-entrant-queries", sess.prov().reentrant_queries.get());
